@@ -331,6 +331,32 @@ def apply_insertion(ctx, e, op, idx, case, labels):
                     at = char_offset(root1, found[0])
                     ctx.check(at == where, sig + ("mark-position",),
                               f"{kind} {form} (pattern {pat!r}, nodes {nodes!r}): <{qn}> sits at raw offset {at}, designated {where}", case)
+    elif kind == "refmark-end":
+        # a point mark at a, turned into a range ending at b, whose end is then moved to c (set_reference_mark_end: "Insert/move")
+        total = len(R0)
+        a = op["o"] % (total + 1)
+        b = a + op["len"] % (total - a + 1)
+        c = a + op["len2"] % (total - a + 1)
+        nt_for_abs(b)
+        if b < total:
+            labels.add("tail-or-boundary")
+
+        def do():
+            mark = e.set_reference_mark(tag, position=a)
+            e.set_reference_mark_end(mark, position=b)
+            if op.get("move", True):
+                e.set_reference_mark_end(mark, position=c)
+
+        res = unchanged_or_raises(do)
+        ctx.check(res == "ok", sig + ("exception",), f"set_reference_mark / set_reference_mark_end ({a},{b},{c}) raised", case)
+        root1 = xml_of(e)
+        end_at = c if op.get("move", True) else b
+        for qn, where, n_want in (("text:reference-mark-start", a, 1), ("text:reference-mark-end", end_at, 1), ("text:reference-mark", None, 0)):
+            found = [el for el in root1.iter(odfread.q(qn)) if el.get(odfread.q("text:name")) == tag]
+            ctx.check(len(found) == n_want, sig + ("mark-count",), f"{len(found)} <{qn}> named {tag} after start at {a}, end at {b}, end moved to {c}", case)
+            if found and where is not None:
+                at = char_offset(root1, found[0])
+                ctx.check(at == where, sig + ("mark-position",), f"<{qn}> sits at raw offset {at}, designated {where} (start {a}, end {b} moved to {c})", case)
     elif kind == "note":
         matches = find_matches(nodes, pat)
         res = unchanged_or_raises(lambda: e.insert_note(after=pat, note_id=tag, citation="9", body="note body"))
@@ -505,6 +531,7 @@ def st_ops():
         st.fixed_dictionaries({"kind": st.sampled_from(["bookmark", "refmark"]), "form": st.sampled_from(["before", "after", "content"]),
                                "pat": pat, "k": st.integers(0, 4)}),
         st.fixed_dictionaries({"kind": st.sampled_from(["bookmark", "refmark"]), "form": st.just("tuple"), "o": o, "len": st.integers(0, 9)}),
+        st.fixed_dictionaries({"kind": st.just("refmark-end"), "o": o, "len": st.integers(0, 9), "len2": st.integers(0, 12), "move": st.sampled_from([True, True, False])}),
         st.fixed_dictionaries({"kind": st.just("note"), "pat": pat}),
         st.fixed_dictionaries({"kind": st.just("annotation"), "form": st.sampled_from(["before", "after", "content"]), "pat": pat,
                                "k": st.integers(0, 3)}),
